@@ -115,17 +115,16 @@ pub fn naive_eval(
         drop(input_list);
         drop(views);
         stats.ops_run += 1;
-        // outputs are returned for the used positions, in order
-        let mut it = outs.into_iter();
-        for oid in op_node.output_ids().iter() {
+        // outputs are positional (the executor zips output_ids with the
+        // returned list); unused positions are skipped
+        let n_outs = outs.len();
+        for (oid, v) in op_node.output_ids().iter().zip(outs.into_iter()) {
             if let Some(oid) = oid {
-                match it.next() {
-                    Some(v) => {
-                        values.insert(*oid, v);
-                    }
-                    None => return Err(format!("naive evaluator: operator {} returned too few outputs", op_node.operator().name())),
-                }
+                values.insert(*oid, v);
             }
+        }
+        if op_node.output_ids().iter().enumerate().any(|(k, o)| o.is_some() && k >= n_outs) {
+            return Err(format!("naive evaluator: operator {} returned too few outputs", op_node.operator().name()));
         }
     }
     let mut res = Vec::new();
